@@ -584,6 +584,15 @@ fn slices(mode: Mode, thorough: bool) -> Vec<Slice> {
             forces: vec![false], drops: vec![false], setchunks: if thorough && mode != Mode::C07 || c07_extra { vec![4_097, 5_000, 70_000, 0x7FFF_FFFF] } else { vec![4_097, 70_000, 0x7FFF_FFFF] }, init_chunk: None,
         });
     }
+    if mode != Mode::C08 {
+        // the Set Chunk Size announcement travels on the protocol control chunk stream itself: control messages
+        // before and after a chunk size change share their header history with it
+        v.push(Slice {
+            name: "chunk-size-changes/protocol-control-messages-on-the-same-chunk-stream",
+            types: vec![3, 5], msids: vec![0], tss: vec![0, 100, 350], lens: vec![4],
+            forces: both.clone(), drops: vec![false], setchunks: vec![2, 128, 4096], init_chunk: None,
+        });
+    }
     if c07_extra {
         v.push(Slice {
             name: "four-chunk-streams/one-type-each/chunk-size-2",
